@@ -20,6 +20,8 @@ ATOM_VALUES = {
     "sa": "a", "sempty": "", "ssurr": "\udc80x", "snonbmp": "\U0001F600", "s1": "1",
     # a lone surrogate next to a character that only newer Unicode databases call printable (U+1FAD0, Unicode 13)
     "ssurr2": "\ud800\U0001fad0",
+    # a high surrogate directly followed by a low one, as two code points (a JSON text cycle would fuse them)
+    "spair": "\ud800\udc00",
     "ba": b"a", "bempty": b"", "none": None, "ellipsis": Ellipsis,
 }
 
